@@ -50,6 +50,7 @@ func Load(opts *LoaderOptions) (*types.Project, error) {
 
 	apply(mergedProject,
 		setDefaultShell,
+		setDefaultLogLength,
 		assignDefaultProcessValues,
 		cloneReplicas,
 		copyWorkingDirToProbes,
@@ -141,9 +142,9 @@ func loadProjectFromFile(inputFile string, opts *LoaderOptions) (*types.Project,
 	temp = os.ExpandEnv(temp)
 	temp = strings.ReplaceAll(temp, envEscaped, "$")
 
-	project := &types.Project{
-		LogLength: defaultLogLength,
-	}
+	// no default here: a default set in every file would override, when files are merged, what an
+	// earlier file configured (see setDefaultLogLength)
+	project := &types.Project{}
 	err = yaml.Unmarshal([]byte(temp), project)
 	if err != nil {
 		if opts.IsInternalLoader {
